@@ -1148,6 +1148,13 @@ func vC09Random(rr *vRand, maxOps int) []string {
 		}
 		return rr.intn(vC09Sessions)
 	}
+	// mostly another session, sometimes the same one (answered `self`)
+	other := func(a int) int {
+		if rr.chance(1, 12) {
+			return a
+		}
+		return (a + 1 + rr.intn(vC09Sessions-1)) % vC09Sessions
+	}
 	stream := func() string {
 		switch k := rr.intn(20); {
 		case k < 9:
@@ -1170,15 +1177,28 @@ func vC09Random(rr *vRand, maxOps int) []string {
 			ops = append(ops, fmt.Sprintf("perms %d %s", sess(), rr.pick(vC09PermSets)))
 		case k < 55:
 			label++
-			ops = append(ops, fmt.Sprintf("offer %d %d %s %s", label, sess(), stream(), rr.pick(vC09Media)))
+			a, st := sess(), stream()
+			ops = append(ops, fmt.Sprintf("offer %d %d %s %s", label, a, st, rr.pick(vC09Media)))
 			maybePending = append(maybePending, label)
+			if rr.chance(1, 5) {
+				// answer at once and offer again: the second offer finds the publisher
+				ops = append(ops, fmt.Sprintf("end %d ok", label))
+				maybePending = maybePending[:len(maybePending)-1]
+				label++
+				ops = append(ops, fmt.Sprintf("offer %d %d %s %s", label, a, st, rr.pick(vC09Media)))
+				maybePending = append(maybePending, label)
+			}
 		case k < 67:
 			label++
-			ops = append(ops, fmt.Sprintf("request %d %d %d %s", label, sess(), sess(), stream()))
+			a := sess()
+			b := other(a)
+			ops = append(ops, fmt.Sprintf("request %d %d %d %s", label, a, b, stream()))
 			maybePending = append(maybePending, label)
 		case k < 72:
 			label++
-			ops = append(ops, fmt.Sprintf("sendoffer %d %d %d %s", label, sess(), sess(), stream()))
+			a := sess()
+			b := other(a)
+			ops = append(ops, fmt.Sprintf("sendoffer %d %d %d %s", label, a, b, stream()))
 			maybePending = append(maybePending, label)
 		case k < 90:
 			if len(maybePending) == 0 {
@@ -1278,7 +1298,7 @@ func vC09Gen(e *vEnv, r *vRand) []vCase {
 	add([]string{"janus video", "janus screen"}, "janus")
 
 	// PRNG histories
-	n := e.scale(250, 4000)
+	n := e.scale(250, 15000)
 	maxOps := e.scale(30, 60)
 	for i := 0; i < n; i++ {
 		rr := r.fork()
@@ -1307,7 +1327,7 @@ func TestVerifC09(t *testing.T) {
 // no gates; each case is one `stress` op after a fixed setup.
 func vC09StressGen(e *vEnv, r *vRand) []vCase {
 	var cases []vCase
-	n := e.scale(40, 400)
+	n := e.scale(40, 1500)
 	for i := 0; i < n; i++ {
 		rr := r.fork()
 		ops := append([]string(nil), vC09Setup...)
